@@ -4,6 +4,7 @@ go 1.26.8
 
 require (
 	github.com/btcsuite/btcd/btcec/v2 v2.3.5-0.20250307104530-c7191d2913c7
+	github.com/pborman/uuid v1.2.1
 	gitlab.com/aquachain/aquachain v0.0.0
 	golang.org/x/crypto v0.37.0
 )
@@ -22,7 +23,6 @@ require (
 	github.com/joho/godotenv v1.5.1 // indirect
 	github.com/mattn/go-colorable v0.1.14 // indirect
 	github.com/mattn/go-isatty v0.0.20 // indirect
-	github.com/pborman/uuid v1.2.1 // indirect
 	github.com/rs/cors v1.11.1 // indirect
 	github.com/shopspring/decimal v1.4.0 // indirect
 	github.com/syndtr/goleveldb v1.0.0 // indirect
